@@ -27,7 +27,26 @@ type peer struct {
 	autoAck bool
 	hold    int // number of received QoS>0 publishes still to leave unacknowledged (then autoAck resumes)
 	sendMu  sync.Mutex
-	state   *subState // shared by all connections of one subscriber: which messages it has acknowledged
+	state   *subState         // shared by all connections of one subscriber: which messages it has acknowledged
+	held    []*packet.Publish // deliveries whose acknowledgement is being withheld
+}
+
+// releaseHeld acknowledges everything that was withheld so far and stops withholding
+func (p *peer) releaseHeld() {
+	p.mu.Lock()
+	held := p.held
+	p.held = nil
+	p.hold = 0
+	p.mu.Unlock()
+	for _, v := range held {
+		if v.Message.QOS == 1 {
+			if p.send(&packet.Puback{ID: v.ID}) == nil {
+				p.state.ackedID(v.ID)
+			}
+		} else {
+			p.send(&packet.Pubrec{ID: v.ID})
+		}
+	}
 }
 
 // subState is the subscriber's own view across reconnects: a message counts as handled only
@@ -89,6 +108,7 @@ func (p *peer) reader() {
 			if pub.Message.QOS > 0 && p.hold > 0 {
 				p.hold--
 				ack = false
+				p.held = append(p.held, pub)
 			}
 		}
 		p.mu.Unlock()
